@@ -165,7 +165,7 @@ pub fn fault_h<Tr: ?Sized + Trait, B: Backend, E: Elem + SatisfyTraits<Tr>>(p: c
     let s = p.start.get();
     let e = p.end.get();
     assume(s <= e && e <= len);
-    let f = any_usize();
+    let f = p.f.get();
     assume(f <= p.fb && f <= e - s);
     let n = p.r.get();
     assume(n <= 2);
